@@ -802,6 +802,7 @@ func run(c *core.Ctx) {
 	search(c, "mqtt", depth)
 	randomPick(c)
 	wide(c)
+	longNames(c)
 	bound := 2
 	if !c.Quick() {
 		bound = 3
@@ -874,5 +875,7 @@ func replay(c *core.Ctx, raw json.RawMessage) {
 		randomPick(c)
 	case "wide":
 		wide(c)
+	case "long-names":
+		longNames(c)
 	}
 }
